@@ -814,9 +814,8 @@ func evaluateNodeValueWithNull(node *ExprNode, data map[string]any) (any, bool, 
 
 // compareValuesWithNullForEquality compares two values for equality (supports NULL comparison)
 func compareValuesWithNullForEquality(left any, leftIsNull bool, right any, rightIsNull bool) bool {
-	if leftIsNull && rightIsNull {
-		return true
-	}
+	// SQL: a comparison with a NULL operand is not true - also NULL = NULL, so the simple
+	// form CASE x WHEN y ... never matches when x or y is NULL.
 	if leftIsNull || rightIsNull {
 		return false
 	}
